@@ -141,4 +141,132 @@ Proof.
   - exact (auth_end_ok_auth hp hpo hd STSpecialNotFile sch ui h pt p q f K eq_refl).
 Qed.
 
+(* ---------- every canonical record, every call ---------- *)
+Let HF : host_fns_ok hp hpo hd := HostWf_fns_ok hp hpo hd (HostRT_HostWf hp hpo hd HRT).
+
+(* set_fragment(Some x) *)
+Theorem all_set_fragment u x u' : Canon u -> usv_list x -> set_fragment dbg u (Some x) = Some u' -> nlen (ser u') <= U32_MAX_P ->
+  Canon u' /\ unchanged_but_fragment dbg u u' /\ path u' = path u
+  /\ fragment dbg u' = Some (Some (tnl_text T_FRAGMENT x))
+  /\ (first_ok (rev (35 :: x)) -> parse_url dbg hp hpo hd None None (splice_fragment u x) = POk u').
+Proof.
+  intros C Hx E Hb. pose proof (Canon_wfh u C) as Hw.
+  destruct (frame_all dbg hp hpo hd u Hw) as (F1 & _). destruct (get_all dbg hd u Hw) as (G1 & _).
+  destruct (F1 (Some x) u' E) as [A B].
+  split; [exact (set_fragment_Canon dbg hp hpo hd HRT u (Some x) u' C Hx E Hb)|].
+  split; [exact A|]. split; [exact B|]. split; [exact (G1 (Some x) u' E)|].
+  intros Hl. exact (splice_agreement_set_fragment dbg hp hpo hd HRT u x u' C Hx Hl E Hb).
+Qed.
+
+(* set_query(Some x) *)
+Theorem all_set_query u x u' : Canon u -> usv_list x -> set_query dbg u (Some x) = Some u' -> nlen (ser u') <= U32_MAX_P ->
+  Canon u' /\ unchanged_but_query dbg u u' /\ path u' = path u
+  /\ query dbg u' = Some (Some (query_text u x))
+  /\ (no_hash x = true -> (fragment_start u = None -> first_ok (rev (63 :: x))) ->
+      parse_url dbg hp hpo hd None None (splice_query u x) = POk u').
+Proof.
+  intros C Hx E Hb. pose proof (Canon_wfh u C) as Hw.
+  destruct (frame_all dbg hp hpo hd u Hw) as (_ & F2 & _). destruct (get_all dbg hd u Hw) as (_ & G2 & _).
+  destruct (F2 (Some x) u' Hx E) as [A B].
+  split; [exact (set_query_Canon dbg hp hpo hd HRT u (Some x) u' C Hx E Hb)|].
+  split; [exact A|]. split; [exact B|]. split; [exact (G2 (Some x) u' Hx E)|].
+  intros Hh Hl. exact (splice_agreement_set_query dbg hp hpo hd HRT u x u' C Hx Hh Hl E Hb).
+Qed.
+
+(* set_port(Some n) *)
+Theorem all_set_port u n u' : Canon u -> n <= 65535 -> set_port dbg u (Some n) = Some (u', SOk) -> nlen (ser u') <= U32_MAX_P ->
+  Canon u' /\ same_ids dbg u u' /\ same_back dbg u u'
+  /\ (exists sch, scheme u = Some sch /\ port u' = norm_port sch (Some n))
+  /\ parse_url dbg hp hpo hd None None (splice_port u n) = POk u'.
+Proof.
+  intros C Hn E Hb. pose proof (Canon_wfh u C) as Hw.
+  destruct (frame_all dbg hp hpo hd u Hw) as (_ & _ & F3 & _). destruct (get_all dbg hd u Hw) as (_ & _ & G3 & _).
+  destruct (F3 (Some n) u' Hn E) as [A B].
+  split; [exact (set_port_Canon dbg hp hpo hd u (Some n) u' SOk C Hn E Hb)|].
+  split; [exact A|]. split; [exact B|]. split; [exact (G3 (Some n) u' Hn E)|].
+  exact (splice_agreement_set_port dbg hp hpo hd HRT u n u' C Hn E Hb).
+Qed.
+
+(* set_password(Some y) *)
+Theorem all_set_password u y u' : Canon u -> usv_list y -> set_password dbg u (Some y) = Some (u', SOk) -> nlen (ser u') <= U32_MAX_P ->
+  Canon u'
+  /\ (scheme u' = scheme u /\ username dbg u' = username dbg u /\ host_str u' = host_str u /\ port u' = port u /\ same_back dbg u u')
+  /\ password dbg u' = Some (match y with c :: r => Some (userinfo_enc (c :: r)) | [] => None end)
+  /\ (y <> [] -> forallb (plainc (sp_of u)) y = true -> parse_url dbg hp hpo hd None None (splice_password u y) = POk u').
+Proof.
+  intros C Hy E Hb. pose proof (Canon_wfh u C) as Hw.
+  destruct (frame_all dbg hp hpo hd u Hw) as (_ & _ & _ & F4 & _). destruct (get_all dbg hd u Hw) as (_ & _ & _ & G4 & _).
+  split; [exact (set_password_Canon dbg hp hpo hd u (Some y) u' SOk C Hy E Hb)|].
+  split; [exact (F4 (Some y) u' E)|]. split; [exact (G4 (Some y) u' E)|].
+  intros Hne Hpl. exact (splice_agreement_set_password dbg hp hpo hd HRT u y u' C Hy Hne Hpl E Hb).
+Qed.
+
+(* set_username(x) *)
+Theorem all_set_username u x u' : Canon u -> usv_list x -> set_username dbg u x = Some (u', SOk) -> nlen (ser u') <= U32_MAX_P ->
+  Canon u'
+  /\ (scheme u' = scheme u /\ password dbg u' = password dbg u /\ host_str u' = host_str u /\ port u' = port u /\ same_back dbg u u')
+  /\ (exists cur, username dbg u = Some cur
+        /\ username dbg u' = Some (if list_eqb cur (utf8_encode x) then cur else userinfo_enc x))
+  /\ (forallb (fun c => plainc (sp_of u) c && negb (c =? 58)) x = true ->
+      parse_url dbg hp hpo hd None None (splice_username u x) = POk u').
+Proof.
+  intros C Hx E Hb. pose proof (Canon_wfh u C) as Hw.
+  destruct (frame_all dbg hp hpo hd u Hw) as (_ & _ & _ & _ & F5 & _). destruct (get_all dbg hd u Hw) as (_ & _ & _ & _ & G5 & _).
+  split; [exact (set_username_Canon dbg hp hpo hd u x u' SOk C Hx E Hb)|].
+  split; [exact (F5 x u' E)|]. split; [exact (G5 x u' E)|].
+  intros Hpl. exact (splice_agreement_set_username dbg hp hpo hd HRT u x u' C Hx Hpl E Hb).
+Qed.
+
+(* set_path(x) on a URL with an authority *)
+Theorem all_set_path u x u' : Canon u -> has_authority_b u = true -> usv_list x -> set_path dbg u x = Some u' ->
+  nlen (ser u') <= U32_MAX_P ->
+  wfh u' /\ same_front dbg u u' /\ query dbg u' = query dbg u /\ fragment dbg u' = fragment dbg u
+  /\ (exists P, path u' = Some P /\ new_path_ok P)
+  /\ (forallb no_qh x = true -> path_arg_ok x ->
+      Canon u'
+      /\ ((query_start u = None -> fragment_start u = None -> first_ok (rev x)) ->
+          parse_url dbg hp hpo hd None None (splice_path u x) = POk u')).
+Proof.
+  intros C Hau Hx E Hb. pose proof (Canon_wfh u C) as Hw.
+  destruct (path_all dbg u Hw Hau) as (P1 & _).
+  destruct (P1 x u' Hx (Canon_auth_end_ok u C) E) as (W' & A & B & D & (P & HP1 & HP2 & _)).
+  split; [exact W'|]. split; [exact A|]. split; [exact B|]. split; [exact D|]. split; [exists P; split; assumption|].
+  intros Hq Hpa. split; [exact (set_path_Canon dbg hp hpo hd HRT u x u' C Hau Hx Hq Hpa E Hb)|].
+  intros Hl. exact (splice_agreement_set_path dbg hp hpo hd HRT u x u' C Hau Hx Hq Hpa Hl E Hb).
+Qed.
+
+Lemma hostarg_arg_text sp x : forallb (hostarg sp) x = true -> set_host_arg_text x = Some x.
+Proof.
+  intros H. unfold set_host_arg_text. rewrite (not_bracketed sp x H).
+  unfold find_byte. rewrite (find_byte_aux_none 58 x 0 (hostarg_58 sp x H)). reflexivity.
+Qed.
+
+(* set_host(Some x) on a URL with an authority *)
+Theorem all_set_host u x u' : Canon u -> has_authority_b u = true -> forallb (hostarg (sp_of u)) x = true ->
+  set_host dbg hp hpo hd u (Some x) = Some (u', SOk) -> empty_host_ok u u' -> nlen (ser u') <= U32_MAX_P ->
+  Canon u'
+  /\ (exists h, (if sp_of u then hp x else hpo x) = Ok h /\ host_set_post dbg hd u u' h)
+  /\ (usv_list x -> (nskipn (host_end u) (ser u) = [] -> first_ok (rev x)) ->
+      parse_url dbg hp hpo hd None None (splice_host u x) = POk u').
+Proof.
+  intros C Hau Hxa E Hemp Hb. pose proof (Canon_wfh u C) as Hw.
+  split; [exact (set_host_Canon dbg hp hpo hd HRT HAb u x u' C Hau Hxa E Hemp Hb)|].
+  split; [|intros Hx Hl; exact (splice_agreement_set_host dbg hp hpo hd HRT HAb u x u' C Hau Hx Hxa Hl E Hemp Hb)].
+  destruct (set_host_some_post dbg hp hpo hd HF u x u' (proj1 Hw)) as (sch0 & t & h0 & Hs & Ht & Hh & Hpost);
+    [intros Hna; rewrite Hna in Hau; discriminate Hau | exact E |].
+  rewrite (hostarg_arg_text _ x Hxa) in Ht. inversion Ht; subst t.
+  assert (sp_of u = st_is_special (scheme_type_of sch0)) as Esp.
+  { unfold sp_of. unfold scheme, u_slice_to, slice_to_o in Hs. destruct (scheme_end u <=? nlen (ser u)); [|discriminate Hs].
+    inversion Hs. reflexivity. }
+  exists h0. rewrite Esp. split; [exact Hh|]. 
+  (* the premise of the post-condition: an empty new host means no port (empty_host_ok); the host kind of the
+     result is the kind of h0 in every case - read off the canonical record *)
+  destruct (Canon_auth_cases hp hpo hd u C Hau) as (st & sch & ui & h & pt & p & q & f & Eu & K & Hc).
+  subst u. rewrite (sp_of_auth hp hpo hd _ _ _ _ _ _ _ _ K) in Hxa.
+  destruct (set_host_auth dbg hp hpo hd HRT st sch ui h pt p q f x u' K (auth_cls_nf st p Hc) Hxa E) as (h' & Ehp & _ & Eu').
+  rewrite (auth_scheme hd) in Hs. inversion Hs; subst sch0. rewrite (ak_st _ _ _ _ _ _ _ _ _ _ _ K) in Hh.
+  rewrite Ehp in Hh. inversion Hh; subst h0.
+  apply Hpost. intros _ Hi. subst u'. destruct (Hemp Hi) as (_ & _ & Hp0). exact Hp0.
+Qed.
+
 End All.
